@@ -21,8 +21,8 @@ type RecWriter struct {
 	Snaps   []Snap
 	Offered *int64 // bytes offered to the API so far (atomic), may be nil
 
-	FailAt  int           // 1-based index of the first failing Write; 0 = never
-	Partial bool          // the failing call accepts half of its data first
+	FailAt  int  // 1-based index of the first failing Write; 0 = never
+	Partial bool // the failing call accepts half of its data first
 	Delay   func(call int) time.Duration
 	// FailOnce makes only call FailAt fail; later calls succeed again.
 	FailOnce bool
